@@ -221,11 +221,19 @@ _CALL = {'self.decide_pairing_method', 'self.compute_peer_expected_distributions
          'self.pairing_config.delegate.accept', 'self.pairing_config.delegate.key_distribution_response'}
 
 
+# the session table: Session.on_disconnection, on_pairing_failure, Manager.pair / on_smp_pdu / on_session_end
+_SET_LIFE = {'self.completed', 'self.sessions[connection.handle]', 'session'}
+_CALL_LIFE = {'self.manager.on_session_end', 'self.connection.remove_listener', 'self.manager.on_pairing_failure',
+              'self.session_proxy', 'session.on_smp_command', 'session.pair', 'self.send_command',
+              'self.sessions.get', 'self.on_smp_security_request_command', 'self.pairing_result.set_exception'}
+_ACTIVE = {'set': _SET, 'call': _CALL}
+
+
 def _calls_in(node):
     """interesting calls inside an expression, innermost first (evaluation order)"""
     found = []
     for sub in ast.walk(node):
-        if isinstance(sub, ast.Call) and _u(sub.func) in _CALL:
+        if isinstance(sub, ast.Call) and _u(sub.func) in _ACTIVE['call']:
             found.append((sub.lineno, sub.col_offset, f'{_u(sub.func)}({", ".join(_u(a) for a in sub.args)})'))
     return [t for _, _, t in sorted(found, reverse=True)]
 
@@ -241,13 +249,18 @@ def _order(stmts, depth, out):
         elif isinstance(st, ast.Assign) and len(st.targets) == 1:
             for c in _calls_in(st.value):
                 out.append((f'{depth}:call', c))
-            if _u(st.targets[0]) in _SET:
+            if _u(st.targets[0]) in _ACTIVE['set']:
                 out.append((f'{depth}:set {_u(st.targets[0])}', _u(st.value)))
         elif isinstance(st, ast.Expr):
             for c in _calls_in(st.value):
                 out.append((f'{depth}:call', c))
         elif isinstance(st, ast.Return):
+            if st.value is not None:
+                for c in _calls_in(st.value):
+                    out.append((f'{depth}:call', c))
             out.append((f'{depth}:return', '' if st.value is None else _u(st.value)))
+        elif isinstance(st, ast.Delete):
+            out.append((f'{depth}:del', ', '.join(_u(t) for t in st.targets)))
         elif isinstance(st, ast.Try):
             out.append((f'{depth}:try', ''))
             _order(st.body, depth + 1, out)
@@ -265,6 +278,23 @@ def handler_order(smp):
         out = []
         _order(_fn(fn).body, 0, out)
         res[name] = out
+    return res
+
+
+def lifecycle_order(smp):
+    res = {}
+    _ACTIVE['set'], _ACTIVE['call'] = _SET_LIFE, _CALL_LIFE
+    try:
+        for name, fn in (('session_on_disconnection', smp.Session.on_disconnection),
+                         ('session_on_pairing_failure', smp.Session.on_pairing_failure),
+                         ('manager_on_session_end', smp.Manager.on_session_end),
+                         ('manager_pair', smp.Manager.pair),
+                         ('manager_on_smp_pdu', smp.Manager.on_smp_pdu)):
+            out = []
+            _order(_fn(fn).body, 0, out)
+            res[name] = out
+    finally:
+        _ACTIVE['set'], _ACTIVE['call'] = _SET, _CALL
     return res
 
 
@@ -314,7 +344,7 @@ def render():
     lines.append('')
     lines.append('(* the negotiation handlers: assignments of the negotiated fields, decisions, sends and tests, in')
     lines.append('   source order with their nesting depth *)')
-    for name, rows in handler_order(smp).items():
+    for name, rows in list(handler_order(smp).items()) + list(lifecycle_order(smp).items()):
         lines.append(f'Definition {name}_source : list (string * string) := [')
         lines.append(';\n'.join(f'  ({_coq_string(k)}, {_coq_string(v)})' for k, v in rows))
         lines.append('].')
